@@ -1112,7 +1112,10 @@ theorem nodeOk_of (d : DocD) (hv : Valid d) (ho : OrderedCats d) (hx : ExitsByCa
   have hvf := hv.flows f hf
   simp only [validFlow, Bool.and_eq_true] at hvf
   have hm := mem_allNodes hf hn
-  exact ⟨(List.all_eq_true.mp hvf.2) n hn, hx n hm, ho n hm, hu n hm⟩
+  refine ⟨(List.all_eq_true.mp hvf.2) n hn, hx n hm, ?_, hu n hm⟩
+  intro r hr
+  have := ho n hm
+  simpa [orderedNode, hr] using this
 
 theorem load_ok (d : DocD) (hv : Valid d) (hn : ∀ f ∈ d.flows, ∀ n ∈ f.nodes, NodeOk n) :
     load d = .ok (docImg d) := by
